@@ -96,6 +96,29 @@ def run(ctx):
                     res.violations.append({"kind": "inclusion proof does not contain the entry at its position (list with a repeated id)",
                                            "n": n, "i": i, "list": [x.hex() for x in l],
                                            "leaves": ["%d:%s" % (ix, v.hex()[:8]) for ix, v in lv]})
+    # long lists (a block holds about 1100 transactions): levels of more than 256 and more than 512 nodes, even and odd
+    for n in [255, 256, 257, 511, 512, 513, 514, 515, 516, 600, 1024, 1027, 1100][:ctx.scale(13, 13)]:
+        l = [gens.rb(rng, 32) for _ in range(n)]
+        root = get_merkle_root(list(l))
+        ops.append("mroot " + " ".join(x.hex() for x in l))
+        impl.append(root.hex())
+        tree = get_merkle_tree(list(l))
+        if tree.hash() != root:
+            res.violations.append({"kind": "tree hash differs from the commitment (list of %d ids)" % n, "n": n,
+                                   "list": [x.hex() for x in l]})
+        for i in sorted({0, 1, n // 2, n // 2 + 1, n - 2, n - 1, rng.randrange(0, n)}):
+            p = get_proof(tree, i)
+            lv = leaves_of(p)
+            ops.append("mproof %d " % i + " ".join(x.hex() for x in l))
+            impl.append(p.hash().hex() + " " + ",".join("%d:%s" % (ix, v.hex()) for ix, v in lv))
+            res.case(("proof-long", n, i), nontrivial=True)
+            res.count("proofs_in_long_lists")
+            if p.hash() != root or (i, l[i]) not in lv:
+                res.violations.append({"kind": "inclusion proof does not reproduce the commitment / contain its entry (list of %d "
+                                               "ids, position %d)" % (n, i), "n": n, "i": i, "list": [x.hex() for x in l]})
+        if get_merkle_root(l + [l[-1]]) == root:
+            res.violations.append({"kind": "duplicating the last entry keeps the commitment (list of %d ids)" % n,
+                                   "list": [x.hex() for x in l]})
     # ids with a special byte pattern (all zero — the value the protocol uses as the "thin air" reference —, all ones, a single
     # bit at either end) at every position of short lists: commitment, tree, every proof, and every structural edit
     SPECIAL = [b"\x00" * 32, b"\xff" * 32, b"\x00" * 31 + b"\x01", b"\x80" + b"\x00" * 31, b"\x01" + b"\x00" * 31]
